@@ -734,6 +734,8 @@ class Interp:
                 return Sym(f"{base.k}.{attr}")
             if base.typ is not None and base.typ.prim and base.typ.prim.startswith("ext:"):
                 return BoundExt(base, attr)
+            if base.parts and base.parts[0] == "TYPE" and attr == "__name__":
+                return Sym(f"{base.k}.__name__", TypeRef(prim="str"))
             if base.typ is None or base.typ.prim in (None, "callable", "mixed"):
                 # unknown receiver: data attribute or method - decided at call time
                 return Sym(f"{base.k}.{attr}", None, parts=("ATTR", base, attr))
@@ -1391,6 +1393,8 @@ class Interp:
             base = self.eval(target.value, frame)
             if isinstance(base, Obj):
                 base.fields[target.attr] = v
+                if isinstance(v, Obj) and not v.label and base.label:
+                    v.label = f"{base.label}.{target.attr}"
                 if self.cfg.record_ext and base.label:
                     self.emit("SETATTR", st, recv=base.key(), attr=target.attr, value=v.key(), value_v=v)
             elif isinstance(base, (Sym, SpecialObj)):
